@@ -92,6 +92,11 @@ def parse_rfc3339_datetime(rfc3339):
 
     if "." not in date:
         date = date + ".0"
+    else:
+        # RFC3339 allows any number of fraction digits, but %f accepts at most
+        # six (microseconds), so truncate e.g. nanosecond precision timestamps.
+        date, fraction = date.split(".", 1)
+        date = date + "." + fraction[:6]
     raw_datetime = datetime.strptime(date, "%Y-%m-%dT%H:%M:%S.%f")
     delta = timedelta(hours=int(offset[-5:-3]), minutes=int(offset[-2:]))
     if offset[0] == "-":
